@@ -107,6 +107,13 @@ func drawPlan(t *rapid.T, label string, dirs bool) simrt.Plan {
 	if dirs {
 		p.DirAll = decisionOf(drawInt(t, 0, 24, label+"-dir"))
 	}
+	// short reads on standard input (only commands that read it notice)
+	if chance(t, 30, label+"-stdin") {
+		n := drawInt(t, 1, 3, label+"-nchunks")
+		for i := 0; i < n; i++ {
+			p.StdinChunks = append(p.StdinChunks, pick(t, []int{1, 7, 512, 4096, 32768, 65536}, label+"-chunk"))
+		}
+	}
 	return p
 }
 
